@@ -258,9 +258,23 @@ def npz_files(ctx):
     mo_saves = [s for s in saves if s[0] == "mo_coeff.npz"]
     ctx.ob("KEYS-2", "mo_coeff.npz: every writer site stores the array under 'mo_coeff'", len(mo_saves) >= 1 and
            all(s[1] == {"mo_coeff"} for s in mo_saves), f"{[(s[2], sorted(s[1])) for s in mo_saves]}", pa)
-    loads = [nd for nd in ast.walk(rd.node) if isinstance(nd, ast.Subscript) and isinstance(nd.value, ast.Call)
-             and (dotted(nd.value.func) or "").endswith("load") and nd.value.args
-             and _str_const(nd.value.args[0]) == "mo_coeff.npz"]
+    def is_load(c_):
+        return isinstance(c_, ast.Call) and (dotted(c_.func) or "").endswith("load") and c_.args and \
+            _str_const(c_.args[0]) == "mo_coeff.npz"
+    loads = []
+    for sc_ in with_private_helpers(p, rd):
+        handles = set()          # names the opened archive is bound to: `with np.load(..) as f`, `f = np.load(..)`
+        for nd in ast.walk(sc_):
+            if isinstance(nd, ast.With):
+                for it_ in nd.items:
+                    if is_load(it_.context_expr) and isinstance(it_.optional_vars, ast.Name):
+                        handles.add(it_.optional_vars.id)
+            elif isinstance(nd, ast.Assign) and is_load(nd.value) and len(nd.targets) == 1 and isinstance(nd.targets[0], ast.Name):
+                handles.add(nd.targets[0].id)
+        for nd in ast.walk(sc_):
+            if isinstance(nd, ast.Subscript) and isinstance(nd.ctx, ast.Load) and (
+                    is_load(nd.value) or (isinstance(nd.value, ast.Name) and nd.value.id in handles)):
+                loads.append(nd)
     ctx.ob("KEYS-2", "mo_coeff.npz: the reader loads the key that is written", len(loads) == 1 and
            _str_const(loads[0].slice) == "mo_coeff", f"reads {[_str_const(l.slice) for l in loads]}", rd)
     # spin slicing in the reader:  X[s][:, :N[t]]  must have s == t -- on the value graph, so that named temporaries
@@ -396,6 +410,37 @@ def amplitude_provenance(ctx):
                    ok, f"built from {dict((a_, sorted(map(str, b_))) for a_, b_ in uses.items())}" +
                    ("" if ok else f"; expected {dict((a_, sorted(map(str, b_))) for a_, b_ in exp[0].items()) if exp else 'a known key'}"),
                    pa, e.line)
+        # SYM-1: the two same-spin doubles blocks are built by one formula: ci2bb is ci2aa with the alpha amplitudes
+        # (t1[0], t2[0]) replaced by the beta ones (t1[1], t2[2])
+        if "ci2aa" in items and "ci2bb" in items:
+            from ..rules.gvn import GVN, TooBig, compare_forms
+            from ..symex import const as _c, getitem as _gi
+            roots = {}
+            for x in subterms(items["ci2aa"]):
+                if x.op == "getitem" and x.args[0].op == "attr" and x.args[0].args[1] in ("t1", "t2") and x.args[1].op == "const":
+                    roots[x.args[0].args[1]] = x.args[0]
+            hyp = {}
+            for nm_, (a_, b_) in (("t1", (0, 1)), ("t2", (0, 2))):
+                if nm_ in roots:
+                    hyp[_gi(roots[nm_], _c(a_))] = _gi(roots[nm_], _c(b_))
+            try:
+                g = GVN(ev, hyp)
+                fa = g.number(items["ci2aa"])
+                g2 = GVN(ev, None)
+                g2.atoms, g2.atom_keys = g.atoms, g.atom_keys
+                fb = g2.number(items["ci2bb"])
+                verdict = compare_forms(g, fa, fb)
+            except TooBig:
+                verdict = "undecided"
+            if verdict == "undecided" or not hyp:
+                ctx.rep.note("prep_afqmc: ci2aa and ci2bb are written with operations the value numbering does not relate; the "
+                             "spin-mirror rule is not applied")
+            else:
+                da = {k_: v for k_, v in fa.items() if fb.get(k_) != v}
+                db = {k_: v for k_, v in fb.items() if fa.get(k_) != v}
+                ctx.ob("SYM-1", "amplitudes.npz: ci2bb is ci2aa with the beta amplitudes in place of the alpha ones",
+                       verdict != "differ", "equal value numbers under t1[0] -> t1[1], t2[0] -> t2[2]" if verdict != "differ" else
+                       f"the two same-spin blocks differ: {g.describe(da)[:160]}  vs  {g.describe(db)[:160]}", pa, e.line)
     if len(seen_keys) == 0:
         raise AnalysisError("prep_afqmc: no amplitude array reaches np.savez('amplitudes.npz', ...)")
     if len(seen_keys) < 7:
@@ -494,11 +539,51 @@ def trial_dispatch(ctx):
                f"constructs {made}", rd)
 
 
-def option_defaults_of(rd) -> Set[str]:
+def with_private_helpers(p, fi, name: str = "options") -> List[ast.AST]:
+    """The function body and the bodies of the module-level helpers of the same module it calls (transitively), each as
+    a syntax tree in which the parameter that receives `name` is called `name` again: a set-up function split into
+    `_read_options()`, `_fill_default_options(options)`, ... is read as one piece."""
+    import copy
+    mod = p.modules[fi.module]
+    out, seen, todo = [], set(), [(fi, name)]
+    while todo:
+        f_, alias = todo.pop()
+        if f_.qualname in seen or isinstance(f_.node, ast.Lambda):
+            continue
+        seen.add(f_.qualname)
+        node = f_.node
+        if alias is not None and alias != name:
+            class Ren(ast.NodeTransformer):
+                def visit_Name(self, n_):
+                    if n_.id == alias:
+                        return ast.copy_location(ast.Name(id=name, ctx=n_.ctx), n_)
+                    return n_
+            node = Ren().visit(copy.deepcopy(node))
+        out.append(node)
+        for c_ in ast.walk(node):
+            if isinstance(c_, ast.Call) and isinstance(c_.func, ast.Name) and c_.func.id in mod.functions:
+                g = mod.functions[c_.func.id]
+                if g.cls is not None:
+                    continue
+                prm = [q.name for q in g.params if q.kind == "pos"]
+                al = None
+                for i_, a_ in enumerate(c_.args):
+                    if isinstance(a_, ast.Name) and a_.id == name and i_ < len(prm):
+                        al = prm[i_]
+                for k_ in c_.keywords:
+                    if isinstance(k_.value, ast.Name) and k_.value.id == name and k_.arg:
+                        al = k_.arg
+                todo.append((g, al))
+    return out
+
+
+def option_defaults_of(rd, p=None) -> Set[str]:
     """Keys of `options` that keep a user-supplied value (whatever it is, including falsy ones) and otherwise get a
-    default:  options[k] = options.get(k, d)  /  options.setdefault(k, d)  /  if k not in options: options[k] = d."""
+    default:  options[k] = options.get(k, d)  /  options.setdefault(k, d)  /  if k not in options: options[k] = d.
+    With the program given, the private helpers the set-up calls are read as part of it."""
     defaults: Set[str] = set()
-    for nd in ast.walk(rd.node):
+    scopes = with_private_helpers(p, rd) if p is not None else [rd.node]
+    for nd in [n_ for sc_ in scopes for n_ in ast.walk(sc_)]:
         if isinstance(nd, ast.Assign) and isinstance(nd.targets[0], ast.Subscript) and \
                 isinstance(nd.targets[0].value, ast.Name) and nd.targets[0].value.id == "options":
             k = _str_const(nd.targets[0].slice)
@@ -524,11 +609,11 @@ def option_defaults_of(rd) -> Set[str]:
 def options_defaults(ctx):
     p = ctx.p
     rd = p.func("mpi_jax._prep_afqmc")
-    defaults = option_defaults_of(rd)
+    defaults = option_defaults_of(rd, p)
     reads: Dict[str, Tuple[str, int]] = {}
     for q in ("driver.afqmc", "driver.fp_afqmc", "mpi_jax._prep_afqmc"):
         fi = p.func(q)
-        for nd in ast.walk(fi.node):
+        for nd in [n_ for sc_ in with_private_helpers(p, fi) for n_ in ast.walk(sc_)]:
             if isinstance(nd, ast.Subscript) and isinstance(nd.value, ast.Name) and nd.value.id == "options" and \
                     isinstance(nd.ctx, ast.Load):
                 k = _str_const(nd.slice)
@@ -551,8 +636,24 @@ def options_defaults(ctx):
              and ast.unparse(nd.args[0]) == "options"]
     names_w = {_str_const(nd.args[0]) for nd in ast.walk(ra.tree) if isinstance(nd, ast.Call)
                and dotted(nd.func) == "open" and nd.args}
-    names_r = {_str_const(nd.args[0]) for nd in ast.walk(rd.node) if isinstance(nd, ast.Call)
-               and dotted(nd.func) == "open" and nd.args}
+    names_r = set()
+    for sc_ in with_private_helpers(p, rd):
+        dflt = {}
+        if isinstance(sc_, (ast.FunctionDef, ast.AsyncFunctionDef)):
+            pos_ = sc_.args.posonlyargs + sc_.args.args
+            for a_, d_ in zip(pos_[len(pos_) - len(sc_.args.defaults):], sc_.args.defaults):
+                dflt[a_.arg] = d_
+            for a_, d_ in zip(sc_.args.kwonlyargs, sc_.args.kw_defaults):
+                if d_ is not None:
+                    dflt[a_.arg] = d_
+        for nd in ast.walk(sc_):
+            if isinstance(nd, ast.Call) and dotted(nd.func) == "open" and nd.args:
+                a0 = nd.args[0]
+                if isinstance(a0, ast.Name) and a0.id in dflt:          # open(fname) with fname="options.bin" by default
+                    a0 = dflt[a0.id]
+                elif isinstance(a0, ast.Name) and a0.id in p.modules[rd.module].constants:
+                    a0 = p.modules[rd.module].constants[a0.id]
+                names_r.add(_str_const(a0))
     ctx.ob("KEYS-2", "options.bin: the launcher pickles the options dict the set-up unpickles",
            len(wrote) >= 2 and "options.bin" in names_w and "options.bin" in names_r,
            f"writer opens {sorted(x for x in names_w if x)}; reader opens {sorted(x for x in names_r if x)}",
